@@ -7,6 +7,7 @@ import re
 import subprocess
 import time
 
+import lib
 from lib import LEAN_DIR, RUN_DIR, ALLOWED_AXIOMS
 
 FORBIDDEN = re.compile(
@@ -30,6 +31,15 @@ def lake_build(targets=("Abnf", "driver"), timeout=3000):
     """Returns (ok, log)."""
     with Lock():
         t0 = time.time()
+        if LEAN_DIR != lib.LEAN_SRC_DIR:
+            os.makedirs(LEAN_DIR, exist_ok=True)
+            subprocess.run(["rsync", "-a", "--delete", "--exclude", "AbnfGen/*.lean", lib.LEAN_SRC_DIR + "/", LEAN_DIR + "/"], check=True)
+        # regenerate the data files from the repository's current working tree (fresh interpreter)
+        import extract
+        try:
+            extract.in_subprocess()
+        except Exception as e:  # noqa - e.g. the package no longer imports: that is for the check to report
+            return False, "extraction failed: %s" % e, time.time() - t0
         p = subprocess.run(
             ["lake", "build", *targets], cwd=LEAN_DIR, capture_output=True, text=True, timeout=timeout
         )
